@@ -299,6 +299,8 @@ void FilePiece::MMapShift(uint64_t desired_begin) {
     // The mmap was scheduled to end the file, but now we're going to read it.
     at_end_ = false;
     TransitionToRead();
+    // The read buffer starts at desired_begin, not at the beginning of the window that was just unmapped.
+    mapped_offset_ = desired_begin;
     return;
   }
   mapped_offset_ = mapped_offset;
